@@ -779,6 +779,11 @@ def measure_facts():
     r, _, _ = Impl([fld('o', mand)], dict(cfg0, soft=True)).get('o=empty')
     r2, _, _ = Impl([fld('p', mand, True)], dict(cfg0, soft=True, strict=True)).get('p[1].x=5')
     f['freqTouch'] = 'fault' in r and 'fault' in r2
+    # the values of one list member under several keys are counted together
+    w = fact_witness('freqAccumulates')
+    r, _, _ = Impl(w['fields'], w['cfg']).get(w['qs'])
+    r2, _, _ = Impl([fld('m', P('int'), True, 'occurs', 2, None)], w['cfg']).get('m[0]=1&m[1]=2')
+    f['freqAccumulates'] = 'fault' in r and 'ok' in r2
     r, _, _ = Impl(sigo, cfg0).get('p=empty')
     f['emptyMarker'] = 'empty' if r.get('ok', {}).get('o', [[0, 0]])[0][1] == {'l': []} else 'other'
     seps = [c for c in '&;,| ' if list(_parse_qs('a=1%sb=2' % c).keys()) == ['a', 'b']]
@@ -839,7 +844,7 @@ WSDL_PROBES = ['wsdl', 'WSDL', 'Wsdl=1&a=2', 'wsdl=', 'a=1&wsdl', 'a=x.wsdl', 'a
 
 GOOD = {'keyOrder': 'natural', 'tagScope': 'perBranch', 'freqScope': 'perMember', 'subNameScope': 'member',
         'wsdlRule': 'firstName', 'encGuard': 'rootOnly', 'bytesDeclaredWins': True}
-GOOD_C05 = {'freqTouch': True}      # soft-validation switches: reported by part_c05 (property C05), modelled either way
+GOOD_C05 = {'freqTouch': True, 'freqAccumulates': True}      # soft-validation switches: reported by part_c05 (property C05), modelled either way
 
 
 def fact_witness(k):
@@ -866,6 +871,9 @@ def fact_witness(k):
         return {'op': 'documented', 'fields': [fld('doc', doc), fld('n', P('int'))],
                 'cfg': {'strict': False, 'soft': False, 'delim': cps('.')},
                 'qs': 'doc.kind=soap&n=1&doc.name=stock.wsdl', 'expected': val}
+    if k == 'freqAccumulates':
+        return {'op': 'verdict', 'fields': [fld('m', P('int'), True, 'occurs', 0, 2)],
+                'cfg': {'strict': False, 'soft': True, 'delim': cps('.')}, 'qs': 'm[0]=1&m[1]=2&m[2]=3', 'expected': 'fault'}
     if k == 'freqTouch':
         mand = obj(3, [fld('x', P('int'), False, None, 1, 1, nillable=False), fld('y', P('str'))])
         return {'op': 'verdict', 'fields': [fld('o', mand)], 'cfg': {'strict': False, 'soft': True, 'delim': cps('.')},
@@ -897,6 +905,7 @@ def facts03 : Facts03 where
   freqScope := .%s
   leaf := facts08
   freqTouch := %s
+  freqAccumulates := %s
   emptyMarker := %s
   pairSeps := [%s]
   plusIsSpace := %s
@@ -908,7 +917,7 @@ def facts03 : Facts03 where
   bytesDeclaredWins := %s
 
 end SpyneModel.Generated
-''' % (f['keyOrder'], f['tagScope'], f['freqScope'], b(f['freqTouch']),
+''' % (f['keyOrder'], f['tagScope'], f['freqScope'], b(f['freqTouch']), b(f['freqAccumulates']),
        '"%s".toList' % f['emptyMarker'], ', '.join(ch(c) for c in f['pairSeps']),
        b(f['plusIsSpace']), b(f['boolFormWords']), b(f['intEmptyIsNone']), f['subNameScope'], f['wsdlRule'], f['encGuard'], b(f['bytesDeclaredWins']))
 
@@ -2180,7 +2189,7 @@ class Unspellable(Exception):
     pass
 
 
-def spell_shared(fields, fvs, delim, prefix=''):
+def spell_shared(fields, fvs, delim, prefix='', idx=None):
     """documented flat notation of a shared value: (key, text | None) pairs. None members are left out, except a
     mandatory nillable one, which is sent as the key without '='. Raises Unspellable for what the notation cannot say."""
     pairs = []
@@ -2204,16 +2213,21 @@ def spell_shared(fields, fvs, delim, prefix=''):
                 if not items:
                     pairs.append((key, 'empty'))
                 for i, x in enumerate(items):
-                    sub = [] if x is None else spell_shared(et['fields'], x['o'][1], delim, '%s[%d]%s' % (key, i, delim))
+                    sub = [] if x is None else spell_shared(et['fields'], x['o'][1], delim, '%s[%d]%s' % (key, i, delim), idx)
                     if not sub:     # (a mandatory nillable member that is None is a key without '=': the element exists)
                         raise Unspellable('null / member-less element of an object array')
                     pairs += sub
             else:
                 if not items:
                     raise Unspellable('empty primitive array')
-                pairs += [(key, None if x is None else shared_leaf_text(et, x)) for x in items]
+                texts = [None if x is None else shared_leaf_text(et, x) for x in items]
+                # the values of a list of primitives may also come under indexed keys (`tags[0]=a&tags[1]=b`): the index
+                # only orders the keys, every value counts; 'mixed': the first values under the plain key
+                plain = len(texts) if idx is None else (0 if idx == 'all' else (len(texts) + 1) // 2)
+                pairs += [(key, x) for x in texts[:plain]]
+                pairs += [('%s[%d]' % (key, i), x) for i, x in enumerate(texts[plain:])]
         elif t['k'] == 'obj':
-            sub = spell_shared(t['fields'], v['o'][1], delim, key + delim)
+            sub = spell_shared(t['fields'], v['o'][1], delim, key + delim, idx)
             pairs += sub if sub else [(key, 'empty')]
         else:
             pairs.append((key, shared_leaf_text(t, v)))
@@ -2272,13 +2286,15 @@ class FlatCase:
         return {'crash': body[:60].decode('latin1')}
 
 
-def c05_flat_verdicts(ctx, fc, args, what, add):
+def c05_flat_verdicts(ctx, fc, args, what, add, idx=None):
     from . import hierblock as H
     c = fc.c
     fields = c.sig['args']
     expected = H.conforms_fields(fields, args['o'][1])
     try:
-        pairs = spell_shared(fields, args['o'][1], '.')
+        pairs = spell_shared(fields, args['o'][1], '.', '', idx)
+        if idx and any('[' in k.split('.')[-1] for k, _ in pairs):
+            ctx.hit('c05flat:indexed-primitive-keys:' + idx)
     except Unspellable as e:
         ctx.hit('c05flat:unspellable:' + str(e))
         return
@@ -2298,7 +2314,7 @@ def c05_flat_verdicts(ctx, fc, args, what, add):
             continue
         accepted = kind in ('ok', 'leak')
         rep = {'kind': 'flat.c05', 'op': 'c05flat', 'sig': c.sig, 'reg': c.U.registry(), 'strict': strict, 'qs': qs,
-               'args': args, 'expected_conforms': expected, 'observed': r}
+               'args': args, 'expected_conforms': expected, 'observed': r, 'idx': idx}
         if accepted != expected:
             ctx.finding('c05:%s:%s:httprpc' % ('accepted-nonconformant' if accepted else 'rejected-conformant', what or 'conformant'),
                         'HttpRpc soft validation verdict differs from the declared constraints (%s): query %r -> %s' % (
@@ -2320,9 +2336,11 @@ def part_c05(ctx):
             w = fact_witness(k)
             r0, _, _ = Impl(w['fields'], w['cfg']).get(w['qs'])
             if 'fault' not in r0:
-                ctx.finding('switch:%s=%s' % (k, f[k]), 'HttpRpc soft validation lets %r through although member o.x is mandatory '
-                            '(an object made by key=empty, or made up by strict_arrays, is never validated): %s' % (
-                                w['qs'], core.canon(r0)[:200]), dict(w, kind='flat.verdict', fact=k, measured=f[k]))
+                why = ('although max_occurs = 2 (the values under several keys of one member are not counted together)'
+                       if k == 'freqAccumulates' else
+                       'although member o.x is mandatory (an object made by key=empty, or made up by strict_arrays, is never validated)')
+                ctx.finding('switch:%s=%s' % (k, f[k]), 'HttpRpc soft validation lets %r through %s: %s' % (
+                    w['qs'], why, core.canon(r0)[:200]), dict(w, kind='flat.verdict', fact=k, measured=f[k]))
     Q = []
 
     def add(q, impl):
@@ -2342,12 +2360,12 @@ def part_c05(ctx):
             args = c.gen_args(none_p=rng.choice([0.0, 0.2]))
             if args is None:
                 continue
-            c05_flat_verdicts(ctx, fc, args, None, add)
+            c05_flat_verdicts(ctx, fc, args, None, add, rng.choice([None, None, 'all', 'mixed']))
             for _ in range(4):
                 r = H.violate(rng, c.in_ty, args, field=False)
                 if r is None:
                     continue
-                c05_flat_verdicts(ctx, fc, r[0], r[1], add)
+                c05_flat_verdicts(ctx, fc, r[0], r[1], add, rng.choice([None, None, 'all', 'mixed']))
     # exhaustive small domains: 8-bit integers, occurrence counts 0 .. max+2 (also inside an object array)
     for kind in ('i8', 'u8'):
         lo, hi = H.KIND_RANGE[kind]
@@ -2357,8 +2375,19 @@ def part_c05(ctx):
     for mn, mx in ((0, 2), (1, 3), (2, 2), (0, None), (2, None)):
         fc = FlatCase(H.FixedCase([['m', {'k': 'int', 'kind': 'i32', 'r': {}, 'occ': H.occ(True, mn, mx)}]]))
         top = (mx if mx is not None else mn + 1) + 2
+        inner = {'k': 'obj', 'name': 'Tg%d%s' % (mn, mx), 'ns': 'tns', 'base': None, 'occ': H.occ(True, 0, 1),
+                 'fields': [['tags', {'k': 'str', 'minLen': 0, 'maxLen': None, 'pattern': None, 'values': [],
+                                      'occ': H.occ(True, mn, mx)}]]}
+        try:
+            fcn = FlatCase(H.FixedCase([['c', inner]]))
+        except Exception:
+            fcn = None
         for n in range(1, top + 1):
-            c05_flat_verdicts(ctx, fc, {'o': ['f', [['m', {'l': [{'i': str(j)} for j in range(n)]}]]]}, 'occurs', add)
+            for idx in (None, 'all', 'mixed'):
+                c05_flat_verdicts(ctx, fc, {'o': ['f', [['m', {'l': [{'i': str(j)} for j in range(n)]}]]]}, 'occurs', add, idx)
+                if fcn is not None:
+                    c05_flat_verdicts(ctx, fcn, {'o': ['f', [['c', {'o': [inner['name'], [['tags', {'l': [
+                        {'s': cps('t%d' % j)} for j in range(n)]}]]]}]]]}, 'occurs', add, idx)
         c05_flat_verdicts(ctx, fc, {'o': ['f', [['m', None]]]}, 'occurs', add)
     t3_history(ctx, add, c05=True)
     if Q:
